@@ -165,6 +165,7 @@ impl Scheduler for SimScheduler {
         let cur = current.map(usize::from);
         let yield_kind = rt::take_last_yield() as usize;
         self.local.steps += 1;
+        rt::bump_progress();
         if run_ids.len() > 1 {
             self.local.choice_points += 1;
         }
